@@ -136,7 +136,7 @@ class Ctx(object):
                            "%s: %s" % (type(e).__name__, e), case)
 
     # -- generated search with bucket exclusion ------------------------
-    def search(self, name, strategy, fn, max_examples, to_case=None):
+    def search(self, name, strategy, fn, max_examples, to_case=None, shrink=True, post_shrink=None):
         """Hypothesis search: fn(ctx, value) raises Violation on failure.
         On failure the shrunk case is recorded, its bucket excluded and the
         search rerun, so one shallow defect does not hide the rest."""
@@ -144,7 +144,7 @@ class Ctx(object):
         from hypothesis import given, settings, HealthCheck, Phase
 
         sd = int.from_bytes(_hash((self.seed, self.task, name)), "big") % (2**63)
-        phases = [Phase.generate, Phase.target, Phase.shrink]
+        phases = [Phase.generate, Phase.target] + ([Phase.shrink] if shrink else [])
         st = settings(max_examples=max_examples, database=None, deadline=None,
                       report_multiple_bugs=False, phases=phases,
                       suppress_health_check=list(HealthCheck), derandomize=False,
@@ -179,6 +179,8 @@ class Ctx(object):
                 return
             except Violation:
                 b, m, c = last["v"]
+                if post_shrink is not None:
+                    c = post_shrink(b, c)
                 self.found.add(b)
                 self.violations.append((b, m, _jsonable(c)))
         return
@@ -409,6 +411,10 @@ def main(argv=None):
             "wall_s": round(wall, 2),
             "violations": len(violations),
         }
+        for tk in extra.values():
+            for k in ("states", "transitions"):
+                if isinstance(tk.get(k), int):
+                    ev["coverage"][k] = ev["coverage"].get(k, 0) + tk[k]
         os.makedirs(os.path.join(VERIF, "evidence"), exist_ok=True)
         with open(os.path.join(VERIF, "evidence", "%s.json" % prop), "w") as f:
             json.dump(ev, f, indent=1, default=repr)
